@@ -13,12 +13,14 @@ use tvh::rng::Rng;
 use tvh::vdir::{OpKind, VerifDirectory};
 use tvh::Args;
 
-const HEADER: &str = "From TV Require Import Base.Prelude Storage.Crash.";
+const HEADER: &str = "From TV Require Import Base.Prelude Storage.Crash Storage.Faults.";
 
 struct Outcome {
     commits: Vec<BTreeSet<u64>>,
     attempted: Vec<BTreeSet<u64>>,
     api_errs: Vec<(usize, &'static str, String)>,
+    /// API calls that failed AFTER the writer had been recovered from the first failure
+    late_errs: Vec<(usize, &'static str, String)>,
     panicked: Option<String>,
     committed: BTreeSet<u64>,
 }
@@ -37,7 +39,7 @@ fn main() {
     for wl in 0..n_work {
         let len = rng.range(5, 14) as usize;
         let ops = e1::gen_history(&mut rng, len, &mut next_id);
-        let cfg = Cfg { threads: 1 + (wl % 2), merge_policy: (wl % 2) as u8, stop_on_error: false };
+        let cfg = Cfg { threads: 1 + (wl % 2), merge_policy: (wl % 2) as u8, stop_on_error: false, replay_failed_commit: false };
         // dry run: number of storage operations
         let dry = VerifDirectory::new();
         let _ = e1::run_history(&dry, &ops, &cfg, false);
@@ -66,9 +68,13 @@ fn main() {
                     let (tx, rx) = mpsc::channel();
                     let (vd2, ops2, mut cfg2) = (vd.clone(), ops.clone(), cfg.clone());
                     cfg2.stop_on_error = permanent;
+                    // a transient fault: the application retries the batch whose commit failed
+                    cfg2.replay_failed_commit = !permanent;
                     std::thread::Builder::new().name("main".into()).spawn(move || {
                         let res = e1::run_history(&vd2, &ops2, &cfg2, rollback);
+                        let recovered_at = vd2.log().iter().find(|e| e.kind == OpKind::Marker && e.path == "recovered").map(|e| e.seq);
                         let o = Outcome {
+                            late_errs: match recovered_at { Some(r) => res.api.iter().filter(|a| !a.ok && a.log_seq > r + 1 && a.what != "merge").map(|a| (a.op_index, a.what, a.err.clone())).collect(), None => vec![] },
                             commits: res.commits.iter().map(|c| c.content.clone()).collect(),
                             attempted: res.attempted.iter().map(|a| a.1.clone()).collect(),
                             api_errs: res.api.iter().filter(|a| !a.ok).map(|a| (a.op_index, a.what, a.err.clone())).collect(),
@@ -109,6 +115,34 @@ fn main() {
                 if critical {
                     out.spec_checked(!o.api_errs.is_empty(), json!({"what": "I/O error on the caller's / indexing path was silently swallowed (no API call returned Err)", "failed_op": format!("{:?} {} on {}", failed[0].kind, failed[0].path, failed[0].thread), "case": desc}));
                 }
+                // (1b) one transient fault = one failure: once the failed writer was rolled back / dropped and replaced,
+                //      every later call succeeds (the batch whose commit failed is issued again)
+                if !permanent && failed.len() == 1 && !o.late_errs.is_empty() {
+                    // known class F111: the retried commit collides with a delete file (<segment>.<opstamp>.del) that the FAILED
+                    // commit attempt had already created -- opstamps are re-used after a rollback / by a new writer, and only a
+                    // garbage collection (which runs after a successful commit) removes the leftover
+                    let recovered_at = log.iter().find(|e| e.kind == OpKind::Marker && e.path == "recovered").map(|e| e.seq).unwrap_or(0);
+                    let last_ret = log.iter().filter(|e| e.seq < recovered_at && e.kind == OpKind::Marker && e.path.starts_with("commit_ret")).map(|e| e.seq).last().unwrap_or(0);
+                    let leftovers: Vec<String> = log.iter().filter(|e| e.seq > last_ret && e.seq < recovered_at && e.kind == OpKind::Create && e.result == "Ok" && e.path.ends_with(".del")).map(|e| e.path.clone()).collect();
+                    let collided: Vec<Option<String>> = o.late_errs.iter().map(|(_, w, e)| {
+                        if *w != "commit" && *w != "rollback_after_error" { return None; }
+                        let i = e.find("FileAlreadyExists(\"")?;
+                        let rest = &e[i + 19..];
+                        let j = rest.find('"')?;
+                        Some(rest[..j].to_string())
+                    }).collect();
+                    let d111 = json!({"what": "after recovering from ONE transient I/O error a retried commit failed: it collides with a delete file left behind by the failed commit attempt", "late_errors": o.late_errs.iter().map(|(i, w, e)| format!("op{i} {w}: {e}")).collect::<Vec<_>>(), "leftover_delete_files_of_failed_attempt": leftovers, "failed_op": format!("#{} {:?} {} on {}", failed[0].seq, failed[0].kind, failed[0].path, failed[0].thread), "case": desc});
+                    if collided.iter().all(|c| c.is_some()) {
+                        let mut ids = PathIds::new();
+                        let left_ids: Vec<u64> = leftovers.iter().map(|p| ids.id(p)).collect();
+                        let coll_ids: Vec<u64> = collided.iter().map(|c| ids.id(c.as_ref().unwrap())).collect();
+                        out.coq_case("known:F111", format!("f111_class {} {}", tvh::coqfmt::ns(&left_ids), tvh::coqfmt::ns(&coll_ids)), d111, true);
+                        continue;
+                    }
+                }
+                if !permanent && failed.len() == 1 {
+                    out.spec_checked(o.late_errs.is_empty(), json!({"what": "after recovering from ONE transient I/O error (rollback or new writer) a later call failed although nothing else was injected", "late_errors": o.late_errs.iter().map(|(i, w, e)| format!("op{i} {w}: {e}")).collect::<Vec<_>>(), "failed_op": format!("#{} {:?} {} on {}", failed[0].seq, failed[0].kind, failed[0].path, failed[0].thread), "case": desc}));
+                }
                 // (2) the trace of successful operations passes the proved discipline (=> every Ok commit
                 //     is complete and durable, the last commit's files are never deleted)
                 if coq_budget > 0 && (k % 3 == 0 || thorough) {
@@ -137,6 +171,38 @@ fn main() {
             }
         }
         out.count("workloads", 1);
+    }
+    // directed: the retried batch after a commit that failed AFTER it wrote its delete files (class F111)
+    for rollback in [true, false] {
+        let vd = VerifDirectory::new();
+        let cfg = Cfg { threads: 1, merge_policy: 0, stop_on_error: false, replay_failed_commit: true };
+        let part1 = vec![Op::Add { id: 900_001, tag: 0, nwords: 2 }, Op::Add { id: 900_002, tag: 1, nwords: 2 }, Op::Commit];
+        let part2 = vec![Op::DelTerm(0), Op::Commit];
+        let r1 = e1::run_history(&vd, &part1, &cfg, rollback);
+        let Some(index) = r1.index.clone() else { continue };
+        drop(r1);
+        vd.set_fault_once(OpKind::AtomicWrite, "meta.json");
+        let r2 = e1::run_history_on(&vd, Some(index), &part2, &cfg, rollback);
+        let log = vd.log();
+        let desc = json!({"directed": "commit, then a deletes-only commit whose meta.json replace fails once; recover; issue the batch again", "recover_by_rollback": rollback});
+        out.count("fault_runs", 1);
+        let failed: Vec<_> = log.iter().filter(|e| e.result == "Io").collect();
+        if failed.len() != 1 || r2.panicked.is_some() { out.spec_checked(false, json!({"what": "directed F111 scenario did not run as scripted (one injected fault, no panic)", "faults": failed.len(), "panic": r2.panicked, "case": desc})); continue; }
+        let recovered_at = log.iter().find(|e| e.kind == OpKind::Marker && e.path == "recovered").map(|e| e.seq).unwrap_or(usize::MAX);
+        let late: Vec<&e1::ApiObs> = r2.api.iter().filter(|a| !a.ok && a.log_seq > recovered_at.saturating_add(1) && a.what != "merge").collect();
+        if late.is_empty() { out.spec_checked(true, json!({})); continue; }
+        let last_ret = log.iter().filter(|e| e.seq < recovered_at && e.kind == OpKind::Marker && e.path.starts_with("commit_ret")).map(|e| e.seq).last().unwrap_or(0);
+        let leftovers: Vec<String> = log.iter().filter(|e| e.seq > last_ret && e.seq < recovered_at && e.kind == OpKind::Create && e.result == "Ok" && e.path.ends_with(".del")).map(|e| e.path.clone()).collect();
+        let collided: Vec<Option<String>> = late.iter().map(|a| { let i = a.err.find("FileAlreadyExists(\"")?; let rest = &a.err[i + 19..]; let j = rest.find('"')?; Some(rest[..j].to_string()) }).collect();
+        let d111 = json!({"what": "after recovering from ONE transient I/O error a retried commit failed: it collides with a delete file left behind by the failed commit attempt", "late_errors": late.iter().map(|a| format!("op{} {}: {}", a.op_index, a.what, a.err)).collect::<Vec<_>>(), "leftover_delete_files_of_failed_attempt": leftovers, "case": desc});
+        if collided.iter().all(|c| c.is_some()) {
+            let mut ids = PathIds::new();
+            let left_ids: Vec<u64> = leftovers.iter().map(|p| ids.id(p)).collect();
+            let coll_ids: Vec<u64> = collided.iter().map(|c| ids.id(c.as_ref().unwrap())).collect();
+            out.coq_case("known:F111", format!("f111_class {} {}", tvh::coqfmt::ns(&left_ids), tvh::coqfmt::ns(&coll_ids)), d111, true);
+        } else {
+            out.spec_checked(false, d111);
+        }
     }
     let _ = Op::Commit;
     out.finish(json!({"tier": args.tier, "seed": args.seed}));
